@@ -58,6 +58,8 @@ class MethodMixin:
         reg(hasattr, self.b_hasattr)
         reg(type, self.b_type)
         reg(sum, self.b_sum)
+        reg(api.unit, lambda a, k, n, f: (a[0],))
+        reg(api.implies, lambda a, k, n, f: self.lor(self.lnot(self.truth(a[0])), self.truth(a[1])))
 
     # ------------------------------------------------------------------ builtins
     def b_len(self, a, k, n, f):
